@@ -95,7 +95,7 @@ def run_registry(pid, spec, tier, seed, replay=None):
         scenarios = [json.load(open(os.path.join(replay, "script.json")))["scenario"]] * 3
     else:
         scenarios = gen.fam_registry(seed, 120 if tier == "quick" else 1500)
-    d = orch.fresh_dir("run-%s-%s" % (pid, tier))
+    d = orch.fresh_dir("run-%s-%s-registry" % (pid, tier))
     shards = min(8, len(scenarios))
     crashes = []
 
